@@ -204,6 +204,11 @@ def main(tier):
                 ff.update({k: b64(v) for k, v in fs.items()})
                 ff[rnd.choice(sorted(fs))] = b64("")        # one of the included files is empty
                 add("include_empty_file", "ie%d_%s" % (n, nm), ff)
+    # 4a. tree documents with a run of directives moved into a macro and pasted (expansion stage)
+    import treemacro
+    tcases, _ = treemacro.build(chk, tier, share=0.5)
+    for tc in tcases:
+        add("tree_macro", "tmc:" + tc["id"], tc["files"])
     # 4b. reference matrix
     for nm, data in reference_matrix():
         add("reference_matrix", "rm:" + nm, {"main.jst": b64(data)})
